@@ -28,10 +28,9 @@ def _sub(text, old, new):
 def derive():
     base = open(os.path.join(SPEC, "Trace_Yata.tla")).read()
     x = _between(base, "Local ==\n", "(* replica r applies a payload").replace("Local ==", "LocalX ==", 1)
-    x = _sub(x, '                ELSE IF call.a = "fmt" THEN XD \\cup Ids(Ev.upd.del)\n',
-             '                (* a multi-operation transaction: every deletion it carries counts as explicit (stricter *)\n'
-             '                (* SameInput, hence never more demanding for C01_Converge)                              *)\n'
-             '                ELSE IF call.a \\in {"fmt", "multi"} THEN XD \\cup Ids(Ev.upd.del)\n')
+    # the explicit deletions of a multi-operation transaction (call.a = "multi") are part of Trace_Yata!Local itself
+    if 'ELSE IF call.a \\in {"fmt", "multi"} THEN XD \\cup Ids(Ev.upd.del)' not in x:
+        raise ValueError("Trace_Yata.tla changed shape: Local has no case for multi-operation transactions")
     fol = ('                     \\o (IF Ev.hasfol THEN FolChecks(E2, R2, Ev.obs, Ev.fol.v1) \\o FolChecks(E2, R2, Ev.obs, Ev.fol.v2) ELSE <<>>)\n'
            '         dr ==')
     x = _sub(x, fol, fol.replace("\n         dr ==", "\n                     \\o C11Checks(E2, R, R2)\n         dr =="))
